@@ -337,6 +337,7 @@ func main() {
 	ctx.JobsW("product", 1, 4, func(int) { product() })
 	ctx.Jobs("sender", len(alphabet), func(j int) { senderSpace(j) })
 	ctx.Jobs("pauses", 8, func(j int) { pauses(j, 8) })
+	ctx.Jobs("thru", 1, func(int) { thru() })
 	ctx.Set("traces_validated_against_impl", ctx.GetInt("transitions"))
 	ctx.Set("max_depth", ctx.GetInt("max:depth"))
 	ctx.Set("fixpoint_reached", ctx.GetInt("fixpoints_reached") == 1)
@@ -349,6 +350,10 @@ func main() {
 
 func replay() {
 	m := ctx.LoadReplay()
+	if m["kind"] == "thru" {
+		thru()
+		ctx.Finish("replay")
+	}
 	if m["kind"] == "stream" {
 		fmt.Println("product-search case: stream", m["stream"], "— replay with ./run C06 quick --replay is equivalent (same decoder, same reference)")
 		return
